@@ -379,6 +379,10 @@ MUTATIONS = [
     {'id': 'c18-revert-reorder-design-bands', 'props': ['C18'], 'tests': 'tests/test_legacy_yang.py',
      'desc': 'revert of the fix: design band objects are not re-ordered (key f_min first) before validation',
      'edits': [('gnpy/tools/convert_legacy_yang.py', "        json_data = reorder_design_bands(json_data)\n", "")]},
+    {'id': 'c17-revert-multiband-in-voa-export', 'props': ['C17'], 'tests': 'tests/test_multiband.py tests/test_parser.py',
+     'desc': 'revert of the fix: Multiband_amplifier.to_json drops the input VOA of its per-band amplifiers',
+     'edits': [('gnpy/core/elements.py', "                        'out_voa': amp.out_voa,\n                        'in_voa': amp.in_voa\n",
+                "                        'out_voa': amp.out_voa\n")]},
     {'id': 'c11-revert-explicit-ispart', 'props': ['C11'], 'tests': 'tests/test_path_computation_functions.py tests/test_disjunction.py',
      'desc': 'revert of fix e50d35fe: explicit route returned without checking the listed nodes are crossed in order',
      'edits': [('gnpy/topology/request.py', "    if total_path is not None and ispart(nodes_list, total_path):",
